@@ -7,9 +7,9 @@ let rec of_sx (s : M.sx) : Sexp.t = match s with
   | M.SA a -> Atom (implode a)
   | M.SL l -> List (List.map of_sx l)
 
-(* ev = (name (roots..)); cmd = (name (roots..) params chans) *)
+(* ev = (name (roots..) pay); cmd = (name (roots..) params chans) *)
 let ev_ s = match list s with
-  | [n; r] -> { M.e_name = nat_ n; M.e_roots = list_ nat_ r }
+  | [n; r; pay] -> { M.e_name = nat_ n; M.e_roots = list_ nat_ r; M.e_pay = nat_ pay }
   | _ -> failwith "ev"
 let item_ s = match list s with
   | [Atom "cmd"; n; r; hp; hc; evs] ->
@@ -35,7 +35,7 @@ let of_decl = function
   | M.DPSchema c -> List [Atom "pschema"; of_nat c]
   | M.DHooks -> List [Atom "hooks"]
   | M.DWrapper c -> List [Atom "wrapper"; of_nat c]
-  | M.DListener e -> List [Atom "listener"; of_nat e]
+  | M.DListener (e, pay) -> List [Atom "listener"; of_nat e; of_nat pay]
   | M.DReexport k -> List [Atom "reexport"; of_nat k]
 let of_output = function
   | None -> List []
@@ -44,11 +44,11 @@ let of_output = function
 
 let () =
   Registry.register "gen" (fun s ->
-    (* (zod omega project) -> (output-option fixed-output-option) *)
+    (* (zod omega project) -> (output-option unsorted-output-option) *)
     match list s with
     | [z; w; p] ->
         let z = bool_ z and w = omega_ w and p = project_ p in
-        List [of_output (M.c13_gen z w p); of_output (M.c13_gen_fixed z w p)]
+        List [of_output (M.c13_gen z w p); of_output (M.c13_gen_raw z w p)]
     | _ -> failwith "c13-gen: bad case");
   Registry.register "viz" (fun s ->
     match list s with
